@@ -1006,6 +1006,20 @@ def spectrum_case(case):
         s2_ = fresh2.bindown(wn2.copy(), flux2.copy())[1]
         r.check(ref.same_numbers(out2['binned_spectrum'], s2_, exact=False, rtol=1e-12), 'b:second-output',
                 'b/second/binned_spectrum/%s' % cls)
+    # ... and a third one on a grid with the same point count AND the same first and last point, spaced differently
+    if len(wn) > 2:
+        span = wn[-1] - wn[0]
+        wn3 = wn[0] + span * ((wn - wn[0]) / span) ** 1.4
+        wn3[0], wn3[-1] = wn[0], wn[-1]
+        out3 = binner.generate_spectrum_output((wn3, flux2, tau, None), output_size=OutputSize[size])
+        r.check(ref.same_numbers(out3.get('native_wngrid'), wn3), 'b:second-output', 'b/third/native_wngrid/%s' % cls)
+        if bl != 'native' and 'binned_spectrum' in out3:
+            fresh3 = make_binner(bl, case['grid'])[0]
+            r.check(ref.same_numbers(out3['binned_spectrum'], fresh3.bindown(wn3.copy(), flux2.copy())[1], exact=False,
+                                     rtol=1e-12), 'b:second-output', 'b/third/binned_spectrum/%s' % cls)
+            if 'binned_tau' in out3:
+                r.check(ref.same_numbers(out3['binned_tau'], fresh3.bindown(wn3.copy(), tau.copy())[1], exact=False,
+                                         rtol=1e-12), 'b:second-output', 'b/third/binned_tau/%s' % cls)
     for k, v in snapshot.items():
         r.check(ref.same_numbers(out[k], v), 'b:first-output-intact', 'b/first-output-overwritten/%s' % cls, key=k)
     r.nontrivial = bl != 'native' or size != 'heavy'
